@@ -678,7 +678,7 @@ def run_real(ck, scenarios, cat, nshards=16):
     return res, oracle
 
 
-def run_model(ck, scenarios, oracle, cat, label="cases", nshards=32):
+def run_model(ck, scenarios, oracle, cat, label="cases", nshards=16):
     nshards = max(1, min(nshards, len(scenarios) // 50 + 1))
     bodies = []
     for s in range(nshards):
